@@ -30,7 +30,14 @@ STEP = 100
 
 
 def sha1(s):
-    return hashlib.sha1(s.encode("utf-8")).hexdigest()
+    """The record gwf stores for a spec. *Which* digest gwf uses is not part of any property (only when it is recorded and compared),
+    so the harness asks gwf for it and falls back to sha1."""
+    try:
+        from gwf.core import hash_spec
+
+        return hash_spec(s)
+    except Exception:
+        return hashlib.sha1(s.encode("utf-8")).hexdigest()
 
 
 class T:
